@@ -282,6 +282,28 @@ func runC13(c *core.Ctx) {
 				}
 			}
 		}
+		// a helper of the module that is handed a pointer derived from `right` and stores through that parameter
+		for _, b := range fn.Blocks {
+			for _, in := range b.Instrs {
+				call, ok := in.(ssa.CallInstruction)
+				if !ok {
+					continue
+				}
+				cal := call.Common().StaticCallee()
+				if cal == nil || cal.Blocks == nil || cal.Pkg == nil || !strings.HasPrefix(cal.Pkg.Pkg.Path(), core.ModPath) {
+					continue
+				}
+				for ai, a := range call.Common().Args {
+					if ai >= len(cal.Params) || !isValueKindPtr(a.Type()) || storeRoot(a) != ssa.Value(right) {
+						continue
+					}
+					if writesThroughParam(cal, ai, 0) {
+						bad = true
+						c.Report("pure.rhs", core.FnName(fn)+"|store-through-right|"+cal.Name(), in.Pos(), fmt.Sprintf("%s hands its right operand to %s, which writes through it: `set T op= E` would change the variable E was read from", core.FnName(fn), cal.Name()))
+					}
+				}
+			}
+		}
 		if !bad && n > 0 {
 			c.Discharge("pure.rhs", core.FnName(fn), fn.Pos(), fmt.Sprintf("%d stores, none through `right`", n))
 		}
@@ -430,4 +452,34 @@ func runC13(c *core.Ctx) {
 			c.Discharge("pure.frame", name, restore.Pos(), "restoring defer dominates every return whose error may be nil")
 		}
 	}
+}
+
+// writesThroughParam: fn stores into a field of the value its i-th parameter points to, directly or in a module
+// function it passes the parameter on to (bounded depth).
+func writesThroughParam(fn *ssa.Function, i int, depth int) bool {
+	if depth > 3 || i >= len(fn.Params) {
+		return false
+	}
+	par := fn.Params[i]
+	for _, b := range fn.Blocks {
+		for _, in := range b.Instrs {
+			switch t := in.(type) {
+			case *ssa.Store:
+				if fa, ok := t.Addr.(*ssa.FieldAddr); ok && storeRoot(fa.X) == ssa.Value(par) {
+					return true
+				}
+			case ssa.CallInstruction:
+				cal := t.Common().StaticCallee()
+				if cal == nil || cal.Blocks == nil || cal == fn {
+					continue
+				}
+				for ai, a := range t.Common().Args {
+					if storeRoot(a) == ssa.Value(par) && writesThroughParam(cal, ai, depth+1) {
+						return true
+					}
+				}
+			}
+		}
+	}
+	return false
 }
